@@ -43,7 +43,7 @@ func main() {
 		}
 	}
 	r := hx.NewRand(ctx.Seed)
-	nBushy, nLong := ctx.Scale(120, 1500), ctx.Scale(20, 250)
+	nBushy, nLong := ctx.Scale(260, 3000), ctx.Scale(45, 500)
 	for i := 0; i < nBushy; i++ {
 		runOne(ctx, chainsim.GenBushy(r.Fork(uint64(i)), chainsim.GenOpts{}))
 	}
@@ -51,10 +51,10 @@ func main() {
 		rr := r.Fork(uint64(1000000 + i))
 		runOne(ctx, chainsim.GenLong(rr, chainsim.GenOpts{}, rr.Range(104, 240)))
 	}
-	nAcc := ctx.Scale(12, 300)
+	nAcc := ctx.Scale(30, 600)
 	runAcceptance(ctx, r.Fork(3000000), nAcc)
 	ctx.Cov.Add("acceptance-chains", nAcc)
-	nDeep := ctx.Scale(4, 40)
+	nDeep := ctx.Scale(9, 80)
 	for i := 0; i < nDeep; i++ {
 		runOne(ctx, chainsim.GenDeep(r.Fork(uint64(2000000+i)), chainsim.GenOpts{}))
 	}
